@@ -364,6 +364,18 @@ def feval(e, env):
             if is_f(args[0]):
                 return sign(args[0])
             return int(args[0] < 0)
+        qc = {'__builtin_isless': '<', '__builtin_islessequal': '<=', '__builtin_isgreater': '>', '__builtin_isgreaterequal': '>=',
+              '__builtin_islessgreater': '<>', '__builtin_isunordered': '?'}
+        if e.x in qc and len(args) == 2:
+            l_, r_ = args
+            nan_ = any(isinstance(v_, str) or (is_f(v_) and is_nan(v_)) for v_ in (l_, r_))
+            if qc[e.x] == '?':
+                return int(nan_)
+            if nan_:
+                return 0                # the quiet comparison macros are false for unordered operands
+            x_ = exact(l_) if is_f(l_) and abs(to_py(l_)) != float('inf') else (to_py(l_) if is_f(l_) else l_)
+            y_ = exact(r_) if is_f(r_) and abs(to_py(r_)) != float('inf') else (to_py(r_) if is_f(r_) else r_)
+            return int({'<': x_ < y_, '<=': x_ <= y_, '>': x_ > y_, '>=': x_ >= y_, '<>': x_ < y_ or x_ > y_}[qc[e.x]])
         if e.x in ('__builtin_isnan', 'isnan', '__isnan', '__isnanf') and len(args) == 1:
             return int(isinstance(args[0], str) or (is_f(args[0]) and is_nan(args[0])))
         if e.x in ct._BITCOUNT:
